@@ -130,17 +130,16 @@ theorem slowStep_ne_fuel (o : Oracle) (op : Nat) (s : St) (io : Io) : slowStep o
       · simp at h
 
 /-- **the main loop terminates**: started with more fuel than the potential, it returns a
-value or a (modelled) panic — it never runs out of fuel.  Hypotheses: the loop invariant and a
-bound `B` on the size of one oracle answer (`M ≥ (190 + B) / 8`). -/
-theorem slowLoop_terminates {o : Oracle} {op B M : Nat} {c0 : SState} {n total : Nat}
-    (hB : OracleBounded o B) (hM : (14 + 176 + B) / 8 ≤ M) (hop : op ≤ 2) :
-    ∀ fuel s io, SlowInv op c0 n total s io → s.lastBytesBits ≤ 14 → slowPot op M s io < fuel →
+value or a (modelled) panic — it never runs out of fuel.  Hypotheses: the loop invariant and `Cap M`:
+`M` bounds the staging buffer as it is and as this call can grow it (no hypothesis on the oracle). -/
+theorem slowLoop_terminates {o : Oracle} {op M : Nat} {c0 : SState} {n total : Nat} (hop : op ≤ 2) :
+    ∀ fuel s io, SlowInv op c0 n total s io → s.lastBytesBits ≤ 14 → Cap M s io → slowPot op M s io < fuel →
       slowLoop o op fuel s io ≠ .fuel := by
   intro fuel
   induction fuel with
-  | zero => intro s io _ _ h; omega
+  | zero => intro s io _ _ _ h; omega
   | succ k ih =>
-    intro s io hP hl hpot
+    intro s io hP hl hC hpot
     unfold slowLoop
     have hnf := slowStep_ne_fuel o op s io
     split
@@ -153,8 +152,9 @@ theorem slowLoop_terminates {o : Oracle} {op B M : Nat} {c0 : SState} {n total :
         rcases hP.st with h1 | ⟨_, h2, _⟩
         · exact hP.nonproc (by rw [← h1]; exact hne)
         · exact h2
-      obtain ⟨d1, d2⟩ := slowStep_decreases hP.inv (by rw [hP.sum]; exact hP.nowrap) hnp hB hM hl hop hs
-      exact ih s1 io1 (slowInv_step hP hs).2 d2 (by omega)
+      obtain ⟨d1, _, d2⟩ := slowStep_decreases (M := M) hP.inv (by rw [hP.sum]; exact hP.nowrap) hnp hl hop hs
+      obtain ⟨d3, d4⟩ := d1 hC
+      exact ih s1 io1 (slowInv_step hP hs).2 d2 d4 (by omega)
     · simp
 
 end BV.Stream
